@@ -41,10 +41,13 @@ TRACE = os.path.join(tlc.SPECS, 'PersistTrace.tla')
 INVS = ['C14_NoRaise', 'C14_Exact', 'C14_NeverNotDone', 'C14_Complete', 'C14_NoPartial', 'C14_One',
         'C14_NoDirNeverWritten', 'HistoryOK', 'TypeOK']
 WITNESSES = ['W_ReadPartial', 'W_ReadEmpty', 'W_ReadMixed', 'W_LostOlder', 'W_NotDoneFull', 'W_Rewritten',
-             'W_BlockedWrite', 'W_Skip']
+             'W_BlockedWrite', 'W_Skip', 'W_BeginKeep', 'W_KeepOverBlocked']
 ACTIONS = ['Run', 'StartWriteAny', 'Skip', 'BeginWrite', 'WriteChunk', 'EndWrite', 'Crash', 'Fault', 'ReadAll', 'ReadOne']
 ALL_STATUSES = ['WAITING', 'PENDING', 'DONE', 'FAILED', 'SKIPPED']
 FAULT_KINDS = ['absent', 'empty', 'garbage', 'dir', 'unreadable']
+FAULT_KINDS_ALL = FAULT_KINDS + ['partial']      # 'partial': a complete file cut short (histories executed on the code only)
+MODES = ['inplace', 'keep']                      # how one file may be written (Persist.tla allows both, file by file)
+WIDTH = 5                                        # tasks of the worlds whose logs are validated together
 FILENAME = 'valjean.env'
 VER0 = 10 ** 6      # entries carry VER0 + version: the serialized length does not depend on the version
 
@@ -164,28 +167,180 @@ def _garbage_samples(seed):
 # ---------------------------------------------------------------------------------------------
 # the real world
 
-class _DyingFile:
-    """File object handed to pickle.dump: lets `budget` bytes through, then the process dies."""
+BLOCKED = ('dir', 'unreadable')
+PARTIAL = ['partial', 'WAITING', 0]
 
-    def __init__(self, real, budget):
-        self.real = real
-        self.budget = budget
+
+class _DyingFile:
+    """Stands for the file object that some flavour of open() returned: lets `budget` bytes (characters) through, then
+    the process dies.  What reached the file stays there."""
+
+    def __init__(self, real, budget, hooks, rec):
+        self.__dict__.update(_real=real, _budget=budget, _hooks=hooks, _rec=rec)
 
     def write(self, data):
-        data = bytes(data)
-        if len(data) <= self.budget:
-            self.budget -= len(data)
-            return self.real.write(data)
-        self.real.write(data[:self.budget])
-        self.budget = 0
+        n = len(data)
+        if self._budget is None or n <= self._budget:
+            if self._budget is not None:
+                self.__dict__['_budget'] = self._budget - n
+            self._rec['written'] += n
+            return self._real.write(data)
+        k = self._budget
+        if k:
+            self._real.write(data[:k])
+        self._rec['written'] += k
+        self.__dict__['_budget'] = 0
+        try:
+            self._real.flush()
+        except Exception:  # pylint: disable=broad-except
+            pass
+        self._hooks.crashed = self._rec['t']
+        self._hooks.died = True
         raise _Crash()
 
+    def writelines(self, lines):
+        for line in lines:
+            self.write(line)
+
+    def __getattr__(self, name):
+        return getattr(self._real, name)
+
+    def __setattr__(self, name, value):
+        setattr(self._real, name, value)
+
+    def __iter__(self):
+        return iter(self._real)
+
     def __enter__(self):
+        self._real.__enter__()
         return self
 
     def __exit__(self, *exc):
-        self.real.close()      # what reached the file stays there
+        return self._real.__exit__(*exc)
+
+
+class _OpenHooks:
+    """While active, `builtins.open` and `io.open` -- hence pathlib.Path.open, os.fdopen, tempfile.* and every module
+    that has no `open` of its own -- are replaced by a pass-through that
+      * recognises, BY ITS PATH, a file that is opened for writing inside the output directory of a task (the
+        environment file itself or a temporary file next to it);
+      * lets the process die when the file of a target task is about to be opened (k None), or hands out a file
+        object that dies after k bytes (k >= 0) -- once;
+      * records which tasks' directories were written to, in which order, and whether the destination itself
+        was opened.
+    Nothing depends on how valjean spells the opening of the file, nor on the order of the files."""
+
+    def __init__(self, world, targets=(), k=None):
+        self.world = world
+        self.targets = set(targets or ())
+        self.k = k
+        self.armed = bool(self.targets)
+        self.recs = []
+        self.crashed = None      # task whose open / write killed the process
+        self.died = False
+        self.saved = None
+
+    def __enter__(self):
+        import builtins
+        import io
+        self.saved = (builtins.open, io.open)
+        builtins.open = io.open = self._open
+        return self
+
+    def __exit__(self, *exc):
+        import builtins
+        import io
+        builtins.open, io.open = self.saved
+        for rec in self.recs:
+            f = rec.pop('file', None)
+            if f is not None:
+                try:
+                    f.close()
+                except Exception:  # pylint: disable=broad-except
+                    pass
         return False
+
+    def _open(self, file, mode='r', *args, **kwargs):
+        real = self.saved[0]
+        if not isinstance(mode, str) or not any(c in mode for c in 'wax+'):
+            return real(file, mode, *args, **kwargs)
+        t, path = self.world.task_of(file)
+        if t is not None and self.armed and t in self.targets and self.k is None:
+            self.armed = False
+            self.crashed = t
+            self.died = True
+            raise _Crash()
+        try:
+            fobj = real(file, mode, *args, **kwargs)
+        except OSError as ex:
+            if t is not None:
+                self.recs.append(dict(t=t, dest=(path == self.world.path(t)), err=type(ex).__name__, written=0))
+            raise
+        try:
+            t2, path2 = self.world.task_of(fobj.fileno())      # where the file really is (openers, descriptors, links)
+            if t2 is not None:
+                t, path = t2, path2
+        except Exception:  # pylint: disable=broad-except
+            pass
+        if t is None:
+            return fobj
+        rec = dict(t=t, dest=(path == self.world.path(t)), err=None, written=0)
+        self.recs.append(rec)
+        if self.armed and t in self.targets and self.k is not None:
+            self.armed = False
+            rec['file'] = fobj
+            return _DyingFile(fobj, self.k, self, rec)
+        return fobj
+
+
+_JOB_SRC = '''"""Job file of the C14 harness: probe tasks described by a JSON file (written by conf_persist.World.session)."""
+import json
+import os
+import pickle
+
+from valjean.cosette.task import Task, TaskStatus
+
+
+class Probe(Task):
+    """Ends as its `beh` says; its result is a payload prepared by the harness."""
+
+    def __init__(self, name, spec, **kwargs):
+        super().__init__(name, **kwargs)
+        self.spec = spec
+
+    def do(self, env, config):
+        spec = self.spec
+        if spec['beh'] == 'raise':
+            raise RuntimeError('probe task fails by raising')
+        with open(spec['payload'], 'rb') as inp:
+            res = pickle.load(inp)
+        if spec['dir']:
+            out = os.path.join(config.query('path', 'output-root'), self.name)
+            os.makedirs(out, exist_ok=True)
+            res['output_dir'] = out
+        return {self.name: res}, (TaskStatus.DONE if spec['beh'] == 'ok' else TaskStatus.FAILED)
+
+
+def job(specfile):
+    with open(specfile, encoding='utf-8') as inp:
+        spec = json.load(inp)
+    tasks = {}
+    for ts in spec['tasks']:
+        tasks[ts['t']] = Probe(ts['name'], ts, deps=[tasks[d] for d in ts['hard']], soft_deps=[tasks[d] for d in ts['soft']])
+    return [tasks[t] for t in spec['listed']]
+'''
+_JOBFILE = []
+
+
+def job_file():
+    """The job file (one per process; generic: what it builds is in the JSON file given as JOB_ARG)."""
+    if not _JOBFILE:
+        d = fast_workdir('c14job')
+        path = os.path.join(d, 'c14job_%d.py' % os.getpid())
+        with open(path, 'w', encoding='utf-8') as f:
+            f.write(_JOB_SRC)
+        _JOBFILE.append(path)
+    return _JOBFILE[0]
 
 
 class World:
@@ -194,27 +349,57 @@ class World:
         self.TaskStatus = TaskStatus
         self.ntasks = ntasks
         self.seed = seed
-        self.root = root or fast_workdir('c14w')
+        self.root = os.path.realpath(root or fast_workdir('c14w'))
         self.names = ['t%d' % t for t in range(1, ntasks + 1)]
-        for n in self.names:
+        self.dirmap = {}
+        for t, n in enumerate(self.names, 1):
             os.makedirs(os.path.join(self.root, n), exist_ok=True)
+            self.dirmap[os.path.join(self.root, n)] = t
         self.scratch = os.path.join(self.root, '.ref')
         self.mem = {}            # t -> (ver, entry object)
         self.entries = {}        # ver -> (t, status, dir, entry)
+        self.byt = {}            # t -> [ver, ...]
         self.ref = {}            # ver -> reference bytes of the complete file
         self.byref = {}          # (t, bytes) -> ver
         self._refobj = {}        # ver -> the object the reference was made from
-        self.disk = {}           # t -> version whose serialization was last started on t's file (bookkeeping)
+        self.disk = {}           # t -> version whose serialization was last started on t's file itself (bookkeeping)
         self.nver = 1
+        self.nsession = 0
         self.garbage = garbage_samples(0)
         self.log = []
         self.origin = []         # log index -> index of the abstract event that produced it
         self.abstract = []
         self.n_reads = 0
+        self.unreached = 0       # planned crashes inside a file that never happened
+        self.notes = []          # things worth a DRIFT line
+        self.stop = False        # the history cannot be continued (a session raised, ...)
+        self.kind = ''           # suffix of the finding keys ('' | 'session')
 
     # -- helpers -------------------------------------------------------------------------
     def path(self, t):
         return os.path.join(self.root, 't%d' % t, FILENAME)
+
+    def task_of(self, file):
+        """(task, real path) for a path / descriptor inside the output directory of a task, else (None, path)."""
+        try:
+            if isinstance(file, int):
+                path = os.readlink('/proc/self/fd/%d' % file)
+            else:
+                path = os.fsdecode(os.fspath(file))
+                path = os.path.join(os.path.realpath(os.path.dirname(os.path.abspath(path))), os.path.basename(path))
+        except Exception:  # pylint: disable=broad-except
+            return None, None
+        t = self.dirmap.get(os.path.dirname(path))
+        if t is None:
+            t = self.dirmap.get(path)         # the directory itself (tempfile with an opener)
+        return t, path
+
+    def _register(self, t, status, has_dir, entry):
+        ver = self.nver
+        self.nver += 1
+        self.entries[ver] = (t, status, bool(has_dir), entry)
+        self.byt.setdefault(t, []).append(ver)
+        return ver
 
     def _refbytes(self, ver, entry=None):
         """Reference content: the real Env.to_file on a scratch path, undisturbed.  An entry that came
@@ -232,41 +417,56 @@ class World:
             env.to_file(self.scratch, task_name='t%d' % t, fmt='pickle')
             with open(self.scratch, 'rb') as f:
                 self.ref[ver] = f.read()
+            os.remove(self.scratch)
             self.byref[(t, self.ref[ver])] = ver
         return self.ref[ver]
 
     def classify(self, t):
-        """(kind, status, ver) of the file of task t."""
+        """[kind, status, ver] of the file of task t, from what is on the disk."""
         p = self.path(t)
         if os.path.islink(p):
-            return ('unreadable', 'WAITING', 0)
+            return ['unreadable', 'WAITING', 0]
         if os.path.isdir(p):
-            return ('dir', 'WAITING', 0)
+            return ['dir', 'WAITING', 0]
         if not os.path.exists(p):
-            return ('absent', 'WAITING', 0)
+            return ['absent', 'WAITING', 0]
         with open(p, 'rb') as f:
             data = f.read()
         if not data:
-            return ('empty', 'WAITING', 0)
+            return ['empty', 'WAITING', 0]
         hint = self.disk.get(t)
         if hint is not None:
             ref = self._refbytes(hint)
             if data == ref:
-                return ('full', self.entries[hint][1], hint)
+                return ['full', self.entries[hint][1], hint]
             if ref.startswith(data):
-                return ('partial', self.entries[hint][1], hint)
-        cands = [v for v, (tt, _s, d, _e) in self.entries.items() if tt == t and d]
-        for v in cands:
-            self._refbytes(v)
+                return list(PARTIAL)
         if (t, data) in self.byref:
             v = self.byref[(t, data)]
-            return ('full', self.entries[v][1], v)
-        # a strict prefix is only called `partial` when this world's bookkeeping says a write of that
-        # entry was started on this file (handled above); anything else that is not complete is garbage
-        return ('garbage', 'WAITING', 0)
+            return ['full', self.entries[v][1], v]
+        cands = [v for v in self.byt.get(t, ()) if self.entries[v][2]]
+        for v in cands:
+            if v not in self.ref:
+                self._refbytes(v)
+        if (t, data) in self.byref:
+            v = self.byref[(t, data)]
+            return ['full', self.entries[v][1], v]
+        # not byte-identical to a reference: a complete file is one that holds exactly {name: entry} for an entry that
+        # was created for t (however it was serialized)
+        try:
+            obj = pickle.loads(data)
+            if list(obj.keys()) == ['t%d' % t]:
+                status, v = self._identify(t, obj['t%d' % t])
+                if v > 0:
+                    return ['full', status, v]
+        except Exception:  # pylint: disable=broad-except
+            pass
+        if any(self.ref[v].startswith(data) for v in cands):
+            return list(PARTIAL)
+        return ['garbage', 'WAITING', 0]
 
     def files(self):
-        return [list(self.classify(t)) for t in range(1, self.ntasks + 1)]
+        return [self.classify(t) for t in range(1, self.ntasks + 1)]
 
     def _emit(self, **ev):
         ev['files'] = self.files()
@@ -277,12 +477,24 @@ class World:
         """(status name, ver) of an entry that came back from the disk; ver = -1 when it is not
         (deep-)equal to any entry that was created for t."""
         try:
-            ver = entry['ver'] - VER0
-            ok = ver in self.entries and self.entries[ver][0] == t and deep_eq(entry, self.entries[ver][3])
             status = self.TaskStatus(entry['status']).name
         except Exception:  # pylint: disable=broad-except
             return 'WAITING', -1
-        return status, (ver if ok else -1)
+        cands = []
+        try:
+            hint = entry['ver'] - VER0
+            if hint in self.entries:
+                cands.append(hint)
+        except Exception:  # pylint: disable=broad-except
+            pass
+        for v in cands + [v for v in reversed(self.byt.get(t, ())) if v not in cands]:
+            tt, st, _d, ref = self.entries[v]
+            try:
+                if tt == t and st == status and deep_eq(entry, ref):
+                    return status, v
+            except Exception:  # pylint: disable=broad-except
+                pass
+        return status, -1
 
     # -- operations ----------------------------------------------------------------------
     def run(self, t, status, has_dir, pid=None):
@@ -294,103 +506,119 @@ class World:
             entry['end_clock'] = 1.5 * self.nver + 0.25
         if has_dir:
             entry['output_dir'] = os.path.join(self.root, 't%d' % t)
-        ver = self.nver
-        self.nver += 1
-        self.entries[ver] = (t, status, bool(has_dir), entry)
+        ver = self._register(t, status, has_dir, entry)
         self.mem[t] = (ver, entry)
         self._emit(op='run', t=t, status=status, ver=ver, dir=bool(has_dir))
 
+    def _crash_target(self, order, crash):
+        """crash: None | dict(tasks=[...], k=None|int) | dict(at=j, k=...) (position in `order`).
+        k None: the process dies when the file of one of `tasks` is about to be opened for writing;
+        k >= 0: it dies after k bytes of the file of tasks[0] were written."""
+        if crash is None:
+            return [], None
+        k = crash.get('k')
+        if 'tasks' in crash:
+            tasks = [t for t in crash['tasks'] if t in order]
+        else:
+            j = crash['at']
+            tasks = list(order[j:]) if k is None else [order[j]]
+        if k is not None:
+            tasks = tasks[:1]
+            if not tasks or 'output_dir' not in self.mem[tasks[0]][1] or self.classify(tasks[0])[0] in BLOCKED:
+                k = None
+                if 'at' in crash:
+                    tasks = list(order[crash['at']:])
+            else:
+                k = max(0, min(k, len(self._refbytes(self.mem[tasks[0]][0])) - 1))
+        return tasks, k
+
     def write(self, order, crash=None):
-        """write_env on a real Env with keys in `order`.  crash = None | dict(at=j, k=None|int):
-        the process dies before the j-th entry of `order` is handled (k None) or after k bytes of
-        its file were written (k >= 0; k is reduced to len-1 if the file is shorter)."""
+        """write_env on a real Env with keys in `order`, observed through _OpenHooks.  Returns True when the process
+        died.  A crash point that is never reached (the file is not opened in a way the hooks see, no file is
+        opened any more) is no crash: write_env completes and the process ends after it."""
         from valjean.cosette import env as envmod
         from valjean.cambronne.common import write_env
         env = envmod.Env()
         for t in order:
             env['t%d' % t] = self.mem[t][1]
-        # what will happen, entry by entry (the log follows the Persist actions)
-        plan = []
-        for j, t in enumerate(order):
+        for t in order:
+            ver, entry = self.mem[t]
+            if 'output_dir' in entry:
+                self._refbytes(ver, entry)
+        targets, k = self._crash_target(order, crash)
+        self._emit(op='start', order=list(order))
+        before = {t: self.classify(t) for t in order}
+        hooks = _OpenHooks(self, targets, k)
+        raised = None
+        with hooks:
+            try:
+                write_env(env, filename=FILENAME, fmt='pickle')
+            except _Crash:
+                pass
+            except Exception as ex:  # pylint: disable=broad-except
+                raised = ex
+        if raised is not None:
+            self.notes.append(('write-raised', 'write_env raised %s: %s' % (type(raised).__name__, raised)))
+        if k is not None and not hooks.died:
+            self.unreached += 1
+        self._segment(order, before, hooks, died=hooks.died or raised is not None, k=k, planned=crash is not None)
+        return hooks.died
+
+    def _segment(self, order, before, hooks, died, k, planned):
+        """The events of one write_env call.  What the statement leaves open is taken from what was observed (order of
+        the files, destination opened or not, where the process died); what it demands is not: when write_env returns,
+        every entry with an output directory counts as written."""
+        final = self.files()
+        recs = hooks.recs if hooks is not None else []
+        first = []
+        for rec in recs:
+            if rec['t'] in order and rec['t'] not in first:
+                first.append(rec['t'])
+        onplace = {t for t in first if any(r['t'] == t and r['dest'] and not r['err'] for r in recs)}
+        events = []
+
+        def mode_of(t):
+            return 'inplace' if t in onplace and before[t][0] not in BLOCKED else 'keep'
+
+        def complete(t):
             ver, entry = self.mem[t]
             if 'output_dir' not in entry:
-                plan.append(('skip', t, ver))
-            elif self.classify(t)[0] in ('dir', 'unreadable'):
-                plan.append(('blocked', t, ver))
+                events.append(dict(op='skip', t=t))
+            elif before[t][0] in BLOCKED and final[t - 1][0] == before[t][0]:
+                events.append(dict(op='blocked', t=t))
             else:
-                plan.append(('write', t, ver))
-                self._refbytes(ver, entry)
-        target = None
-        if crash is not None:
-            j = crash['at']
-            k = crash.get('k')
-            if k is not None and plan[j][0] != 'write':
-                k = None
-            if k is not None:
-                k = min(k, len(self._refbytes(plan[j][2])) - 1)
-            # a crash "before entry j" takes effect when the next file would be opened; if no file
-            # is opened any more the process simply ends after write_env
-            target = (j, k)
-        state = dict(opened=0)
-        openable = [j for j, p in enumerate(plan) if p[0] in ('write', 'blocked')]
-        real_open = open
-
-        def dying_open(path, mode='r', *a, **kw):
-            idx = openable[state['opened']] if state['opened'] < len(openable) else None
-            state['opened'] += 1
-            if target is not None and idx is not None:
-                j, k = target
-                if k is None and idx >= j:
-                    raise _Crash()
-                if k is not None and idx == j:
-                    return _DyingFile(real_open(path, mode, *a, **kw), k)
-            return real_open(path, mode, *a, **kw)
-
-        self._emit(op='start', order=list(order))
-        envmod.open = dying_open
-        crashed = False
-        try:
-            write_env(env, filename=FILENAME, fmt='pickle')
-        except _Crash:
-            crashed = True
-        finally:
-            del envmod.open
-        # log, entry by entry, what was done (the files are observed once, at the end: the call is one step for us)
-        done_upto = len(plan)
-        if crashed:
-            done_upto = target[0] if target[1] is not None else min(x for x in openable if x >= target[0])
-        events = []
-        for j in range(done_upto):
-            kind, t, ver = plan[j]
-            if kind == 'write':
-                events += [dict(op='begin', t=t), dict(op='end', t=t)]
+                events.append(dict(op='begin', t=t, mode=mode_of(t)))
+                events.append(dict(op='end', t=t))
                 self.disk[t] = ver
-            else:
-                events.append(dict(op=kind, t=t))
-        if crashed and target[1] is not None:
-            t = plan[target[0]][1]
-            self.disk[t] = plan[target[0]][2]
-            events.append(dict(op='begin', t=t))
-            if target[1] > 0:
-                events.append(dict(op='chunk', t=t))
-        final = self.files()
+        if died:
+            victim = hooks.crashed if hooks is not None else None
+            for t in first:
+                if t != victim:
+                    complete(t)
+            if victim is not None and k is not None:
+                events.append(dict(op='begin', t=victim, mode=mode_of(victim)))
+                if mode_of(victim) == 'inplace':
+                    self.disk[victim] = self.mem[victim][0]
+                    if k > 0:
+                        events.append(dict(op='chunk', t=victim))
+            events.append(dict(op='crash'))
+            self.mem = {}
+        else:
+            for t in first + [t for t in order if t not in first]:
+                complete(t)
+            if planned:
+                # the crash point was never reached: the process ends normally
+                events.append(dict(op='exit'))
+                self.mem = {}
         # write_env is one call: the files are observed once, after it; the observation is attached to the last
         # event of the segment, the events before it are marked unobserved (files = None -> seen = FALSE)
         for ev in events:
             ev['files'] = None
-        if crashed:
-            events.append(dict(op='crash', files=None))
-            self.mem = {}
-        elif crash is not None:
-            # the crash point lay behind the last file: the process ends normally
-            events.append(dict(op='exit', files=None))
-            self.mem = {}
         if events:
             events[-1]['files'] = final
         else:
             self.log[-1]['files'] = final
         self.log += events
-        return crashed
 
     def exit(self):
         had = bool(self.mem)
@@ -400,8 +628,26 @@ class World:
 
     def fault(self, t, kind, which=0):
         p = self.path(t)
-        if self.classify(t)[0] == kind:
+        cur = self.classify(t)
+        if cur[0] == kind:
             return False
+        if kind == 'partial':
+            # a file cut short: a strict, non-empty prefix of the complete file that is there
+            if cur[0] != 'full':
+                return False
+            with open(p, 'rb') as f:
+                data = f.read()
+            if len(data) < 2:
+                return False
+            self._refbytes(cur[2])
+            if self.ref[cur[2]] != data:
+                self.ref[cur[2]] = data
+                self.byref[(t, data)] = cur[2]
+            with open(p, 'wb') as f:
+                f.write(data[:1 + which % (len(data) - 1)])
+            self.disk[t] = cur[2]
+            self._emit(op='fault', t=t, kind=kind, which=which)
+            return True
         self.disk.pop(t, None)
         if os.path.islink(p) or os.path.isfile(p):
             os.remove(p)
@@ -451,6 +697,79 @@ class World:
             status, ver = self._identify(t, env['t%d' % t])
         return self._emit(op='readone', t=t, raised=False, exc='', present=True, status=status, ver=ver)
 
+    def session(self, tasks, listed=None, workers=1):
+        """One session of `valjean run`, the way valjean does it: RunCommand().execute(args, config) on a job file.
+        tasks = [dict(t=, hard=[..], soft=[..], dir=bool, beh='ok'|'ko'|'raise')] in an order in which every task
+        comes after its dependencies.  Logged as: what read_env returns at the start of the session (the harness's own
+        call, just before), one `run` per entry of the final in-memory environment that is not the entry that was
+        read (the task ran -- or its status was changed without it running), the write_env segment, exit."""
+        import argparse
+        import copy
+        from valjean.cambronne.commands.run import RunCommand
+        from valjean.config import Config
+        if self.mem:
+            self.exit()
+        rd = self.read()
+        if rd['raised'] or any(e['ver'] <= 0 for e in rd['env']):
+            self.stop = True        # the session would start from something that cannot be named
+            return
+        self.nsession += 1
+        aux = os.path.join(self.root, '.job')
+        os.makedirs(aux, exist_ok=True)
+        specs = []
+        for ts in tasks:
+            rng = random.Random('%d/s%d/t%d' % (self.seed, self.nsession, ts['t']))
+            payload = {'result': gen_payload(rng), 'token': [self.seed, self.nsession, ts['t']]}
+            ppath = os.path.join(aux, 'p%d_%d.pkl' % (self.nsession, ts['t']))
+            with open(ppath, 'wb') as f:
+                pickle.dump(payload, f)
+            specs.append(dict(t=ts['t'], name='t%d' % ts['t'], hard=list(ts['hard']), soft=list(ts['soft']), dir=bool(ts['dir']),
+                              beh=ts['beh'], payload=ppath))
+        listed = [ts['t'] for ts in tasks] if listed is None else list(listed)
+        specfile = os.path.join(aux, 'spec%d.json' % self.nsession)
+        with open(specfile, 'w', encoding='utf-8') as f:
+            json.dump(dict(tasks=specs, listed=listed), f)
+        args = argparse.Namespace(job_file=job_file(), job_args=[specfile], job_kwargs={}, workers=workers,
+                                  env_filename=FILENAME, env_format='pickle')
+        config = Config({'path': {'log-root': os.path.join(self.root, '.log'), 'output-root': self.root,
+                                  'report-root': os.path.join(self.root, '.report')}})
+        before = {t: self.classify(t) for t in range(1, self.ntasks + 1)}
+        try:
+            final = RunCommand().execute(args, config)
+        except Exception as ex:  # pylint: disable=broad-except
+            # not what C14 is about (C02/C03/C19): the history ends here
+            self.notes.append(('session-raised', 'RunCommand.execute raised %s: %s' % (type(ex).__name__, str(ex)[:200])))
+            self.exit()
+            self.stop = True
+            return
+        order = []
+        for name, entry in final.items():
+            if name not in self.names or not isinstance(entry, dict) or 'status' not in entry:
+                continue
+            t = self.names.index(name) + 1
+            order.append(t)
+            if t in self.mem and deep_eq(entry, self.mem[t][1]):
+                self.mem[t] = (self.mem[t][0], entry)
+                continue
+            try:
+                status = self.TaskStatus(entry['status']).name
+            except ValueError:
+                status = 'WAITING'
+            has_dir = 'output_dir' in entry
+            ver = self._register(t, status, has_dir, copy.deepcopy(entry))
+            self.mem[t] = (ver, entry)
+            self.log.append(dict(op='run', t=t, status=status, ver=ver, dir=has_dir, files=None))
+        for t in [t for t in self.mem if t not in order]:
+            del self.mem[t]          # read, but not part of the final environment
+        if not order:
+            self.exit()
+            return
+        for t in order:
+            if 'output_dir' in self.mem[t][1]:
+                self._refbytes(self.mem[t][0], self.mem[t][1])
+        self.log.append(dict(op='start', order=list(order), files=None))
+        self._segment(order, before, None, died=False, k=None, planned=True)
+
     def execute(self, events):
         """Perform abstract events (dicts); returns the index into self.log after each of them."""
         marks = []
@@ -469,6 +788,8 @@ class World:
                 self.read()
             elif op == 'readone':
                 self.readone(ev['t'])
+            elif op == 'session':
+                self.session(ev['tasks'], ev.get('listed'), ev.get('workers', 1))
             else:
                 raise tlc.MachineryError('unknown event %r' % (ev,))
             self.origin += [len(self.abstract) - 1] * (len(self.log) - len(self.origin))
@@ -488,6 +809,8 @@ def _fill_files(log, ntasks):
         e['seen'] = e.get('files') is not None
         if e['files'] is None:
             e['files'] = [['absent', 'WAITING', 0] for _ in range(ntasks)]
+        elif len(e['files']) < ntasks:
+            e['files'] = list(e['files']) + [['absent', 'WAITING', 0]] * (ntasks - len(e['files']))
         out.append(e)
     return out
 
@@ -509,20 +832,20 @@ def validate_logs(logs, ntasks, wd, ctx=None, name='PersistTrace', chunk=60000):
         bi, batch = args
         events = []
         for tid, log in batch:
-            events.append(dict(op='reset', tid=tid, step=0, seen=False, files=[['absent', 'WAITING', 0]] * ntasks))
+            events.append(dict(op='reset', tid=tid, step=0, seen=True, files=[['absent', 'WAITING', 0]] * ntasks))
             for step, ev in enumerate(_fill_files(log, ntasks), 1):
                 e = dict(ev, tid=tid, step=step)
                 e.pop('exc', None)
                 e.pop('which', None)
                 events.append(e)
-        bwd = os.path.join(wd, 'batch%d_%d' % (bi, len(events)))
+        bwd = os.path.join(wd, '%s_batch%d_%d' % (name.replace('/', '_'), bi, len(events)))
         os.makedirs(bwd, exist_ok=True)
         cj = tlc.json_dump(os.path.join(bwd, 'events.json'), dict(ntasks=ntasks, events=events))
         oj = os.path.join(bwd, 'verdict.json')
         if os.path.exists(oj):
             os.remove(oj)
         cfg = tlc.write_cfg(os.path.join(bwd, 'trace.cfg'), spec='TSpec', constants={'None': Raw('None')},
-                            invariants=['HistoryOK'], deadlock=False, postcondition='Post')
+                            invariants=[], deadlock=False, postcondition='Post')
         res = tlc.run(TRACE, cfg, workers=1, coverage=False, env=dict(VERIF_CASES=cj, VERIF_OUT=oj), timeout=3000)
         if not res.ok or not os.path.exists(oj):
             raise tlc.MachineryError('PersistTrace: %s\n%s' % (res.violation, res.out[-2500:]))
@@ -556,21 +879,44 @@ def _culprit(files):
     return 'none'
 
 
-def vkey(ev, clauses):
+def vkey(ev, clauses, suffix=''):
+    """suffix names the dimension of the history ('' direct write_env / read_env calls, 'session' RunCommand sessions)."""
+    suffix = '/' + suffix if suffix else ''
     op = 'read_env' if ev['op'] == 'read' else 'from_file' if ev['op'] == 'readone' else ev['op']
     if ev.get('raised'):
         if ev['op'] == 'readone':
-            return 'C14/%s-raises/%s' % (op, ev['files'][ev['t'] - 1][0])
-        return 'C14/%s-raises/%s' % (op, _culprit(ev['files']))
+            return 'C14/%s-raises/%s%s' % (op, ev['files'][ev['t'] - 1][0], suffix)
+        return 'C14/%s-raises/%s%s' % (op, _culprit(ev['files']), suffix)
     if ev['op'] == 'nodir-written' or 'NoDirNeverWritten' in clauses:
-        return 'C14/task-without-output-dir-written'
-    return 'C14/%s-wrong/%s' % (op, '+'.join(sorted(c for c in clauses if c != 'Files')) or 'Files')
+        return 'C14/task-without-output-dir-written' + suffix
+    return 'C14/%s-wrong/%s%s' % (op, '+'.join(sorted(c for c in clauses if c != 'Files')) or 'Files', suffix)
 
 
-def _report(ctx, ev, clauses, events, ntasks, seed):
+def _report(ctx, ev, clauses, events, ntasks, seed, suffix=''):
     what = '%s: clauses %s false; observed %s' % (
         ev['op'], sorted(clauses), {k: ev[k] for k in ('raised', 'exc', 'env', 'present', 'status', 'ver', 'files') if k in ev})
-    ctx.violation(vkey(ev, clauses), what, dict(ntasks=ntasks, seed=seed, events=events), module='conf_persist')
+    ctx.violation(vkey(ev, clauses, suffix), what, dict(ntasks=ntasks, seed=seed, events=events), module='conf_persist')
+
+
+class Drifts:
+    """DRIFT lines, at most `per_class` per class; the rest is counted."""
+
+    def __init__(self, ctx, per_class=3):
+        self.ctx = ctx
+        self.per_class = per_class
+        self.n = {}
+
+    def add(self, cls, msg):
+        self.n[cls] = self.n.get(cls, 0) + 1
+        if self.n[cls] <= self.per_class:
+            self.ctx.drift('[%s] %s' % (cls, msg[:600]))
+
+    def flush(self):
+        for cls, n in sorted(self.n.items()):
+            if n > self.per_class:
+                self.ctx.drift('[%s] %d more of this class not listed' % (cls, n - self.per_class))
+        self.ctx.cov['drift_classes'] = dict(self.n)
+        self.n = {}
 
 
 def replay_case(case):
@@ -581,9 +927,11 @@ def replay_case(case):
     world.execute(case['events'])
     wd = tlc.workdir('c14r')
     verdict, _n = validate_logs([(1, world.log)], case['ntasks'], wd)
-    if not verdict:
+    bad = sorted((k, [c for c in v if c not in ('Files', 'NotEnabled')]) for k, v in verdict.items())
+    bad = [(k, v) for k, v in bad if v]
+    if not bad:
         return True, 'all clauses of Persist.tla hold on the %d logged events' % len(world.log)
-    (tid, step), clauses = sorted(verdict.items())[0]
+    (_tid, step), clauses = bad[0]
     ev = world.log[step - 1]
     return False, 'event %d (%s): clauses %s false; observed raised=%s exc=%s env=%s files=%s' % (
         step, ev['op'], sorted(clauses), ev.get('raised'), ev.get('exc'), ev.get('env'), ev.get('files'))
@@ -592,15 +940,32 @@ def replay_case(case):
 # ---------------------------------------------------------------------------------------------
 # spec -> code
 
-def _consts(ntasks, statuses, max_ver, max_faults, max_crashes, fault_kinds=FAULT_KINDS):
+def _consts(ntasks, statuses, max_ver, max_faults, max_crashes, fault_kinds=FAULT_KINDS, modes=MODES):
     return {'Tasks': frozenset(range(1, ntasks + 1)), 'Statuses': frozenset(statuses), 'MaxVer': max_ver,
-            'MaxFaults': max_faults, 'MaxCrashes': max_crashes, 'FaultKinds': frozenset(fault_kinds), 'None': Raw('None')}
+            'MaxFaults': max_faults, 'MaxCrashes': max_crashes, 'FaultKinds': frozenset(fault_kinds),
+            'Modes': frozenset(modes), 'None': Raw('None')}
+
+
+def probe_modes(seed):
+    """How does the implementation write a file?  One crash after 0 bytes over a complete file: the old content is
+    still there (the destination is kept until the new content is complete) or the file is empty (written in
+    place).  Only used to make TLC simulate behaviours the implementation can follow step by step; the
+    specification allows both, file by file."""
+    world = World(1, seed)
+    world.execute([dict(op='run', t=1, status='DONE', dir=True), dict(op='write', order=[1]), dict(op='exit'),
+                   dict(op='run', t=1, status='DONE', dir=True), dict(op='write', order=[1], crash=dict(tasks=[1], k=0))])
+    kind = world.classify(1)[0]
+    died = world.log[-1]['op'] == 'crash'
+    shutil.rmtree(world.root, ignore_errors=True)
+    if not died:
+        return list(MODES), False
+    return (['keep'] if kind == 'full' else ['inplace'] if kind == 'empty' else list(MODES)), True
 
 
 def behaviour_to_events(beh):
     """Translate a TLC behaviour (list of states with `act`) into executor events.  Returns
     [(event, index of the TLC state reached after it)]; a write segment cut by the end of the
-    behaviour is dropped."""
+    behaviour is dropped.  The entries are put into the Env in the order in which TLC handled them."""
     out = []
     n = len(beh)
     i = 1
@@ -610,23 +975,31 @@ def behaviour_to_events(beh):
         if op == 'run':
             out.append((dict(op='run', t=act['t'], status=act['status'], dir=bool(act['dir'])), i))
         elif op == 'start':
-            order = list(act['order'])
+            tasks = sorted(act['tasks'])
             j = i + 1
-            handled = 0
-            begun = chunked = False
+            handled = []
+            cur = None
+            chunked = False
+            mode = None
             crash = None
             complete = False
             while j < n:
-                o = beh[j]['act']['op']
-                if o in ('skip', 'blocked', 'end'):
-                    handled += 1
-                    begun = chunked = False
+                a = beh[j]['act']
+                o = a['op']
+                if o in ('skip', 'blocked'):
+                    handled.append(a['t'])
                 elif o == 'begin':
-                    begun = True
+                    cur, mode, chunked = a['t'], a['mode'], False
                 elif o == 'chunk':
                     chunked = True
+                elif o == 'end':
+                    handled.append(cur)
+                    cur = None
                 elif o == 'crash':
-                    crash = dict(at=handled, k=None if not begun else ('sweep' if chunked else 0))
+                    if cur is not None:
+                        crash = dict(tasks=[cur], k='sweep' if (chunked or mode == 'keep') else 0)
+                    else:
+                        crash = dict(tasks=[t for t in tasks if t not in handled], k=None)
                     break
                 else:
                     raise tlc.MachineryError('unexpected action %s inside a write segment' % o)
@@ -636,6 +1009,8 @@ def behaviour_to_events(beh):
                 j += 1
             if not (complete or crash):
                 break
+            order = handled + ([cur] if cur is not None else [])
+            order += [t for t in tasks if t not in order]
             out.append((dict(op='write', order=order, crash=crash), j))
             i = j
         elif op in ('exit', 'crash'):
@@ -672,9 +1047,11 @@ def _resolve_k(world, ev, sweeps):
     k = ev['crash']['k']
     if isinstance(k, (list, tuple)) and k and k[0] == 'frac':
         _f, sweep, n = k
-        order = ev['order']
-        t = order[ev['crash']['at']]
+        t = ev['crash']['tasks'][0]
         ver = world.mem[t][0]
+        if not world.entries[ver][2]:
+            ev['crash']['k'] = None
+            return
         length = len(world._refbytes(ver))
         if sweeps <= 1:
             kk = 1 + (length - 2) // 2
@@ -694,8 +1071,10 @@ def _state_files(st, ntasks):
     return [[_at(st['file'], t)['kind'], _at(st['file'], t)['status'], _at(st['file'], t)['ver']] for t in range(1, ntasks + 1)]
 
 
-def replay_behaviour(ctx, beh, ntasks, seed, sweeps):
-    """Run one TLC behaviour on the real code (several byte-length choices); compare with TLC's states."""
+def replay_behaviour(ctx, beh, ntasks, seed, sweeps, stats, keep):
+    """Run one TLC behaviour on the real code (several byte-length choices); compare with TLC's states as long as the
+    implementation makes the choices TLC made (the specification is a relation: another order of the files, another
+    way of writing them is no deviation -- the log of every execution is judged by PersistTrace afterwards)."""
     evs = behaviour_to_events(beh)
     if not evs:
         return 0, 0
@@ -705,7 +1084,7 @@ def replay_behaviour(ctx, beh, ntasks, seed, sweeps):
     nsweeps = sweeps if (has_partial or has_garbage) and has_read else 1
     runs = 0
     for sweep in range(nsweeps):
-        world = World(ntasks, seed)
+        world = World(WIDTH, seed)
         concrete = _concretise([e for e, _ in evs], sweep)
         done = []
         for ev, (_e, si) in zip(concrete, evs):
@@ -716,10 +1095,14 @@ def replay_behaviour(ctx, beh, ntasks, seed, sweeps):
             done.append(ev)
             st = beh[si]
             last = world.log[-1] if len(world.log) > before else None
-            problems = []
-            obs_files = world.files()
+            obs_files = world.files()[:ntasks]
             if obs_files != _state_files(st, ntasks):
-                problems.append('Files')
+                # the implementation resolved a choice differently (or deviates from the model of the files: PersistTrace
+                # will tell); TLC's states are no oracle for the rest of this execution
+                stats['diverged'] += 1
+                break
+            stats['compared'] += 1
+            problems = []
             if last is not None and last['op'] == 'read':
                 exp = st['lastRead']
                 exp_env = sorted((e['t'], e['status'], e['ver']) for e in exp['env'])
@@ -732,28 +1115,19 @@ def replay_behaviour(ctx, beh, ntasks, seed, sweeps):
                 if got != (bool(exp['raised']), bool(exp['present']), exp['status'], exp['ver']):
                     problems.append('lastOne')
             if problems:
-                lastev = dict(last) if last is not None else dict(op=ev['op'])
+                lastev = dict(last)
                 lastev['files'] = obs_files
-                if problems == ['Files']:
-                    # a file is not what the specification says.  Only "a task without output directory was
-                    # written" is a clause of the property; anything else is a deviation from the model of the
-                    # files (the reads, which the property is about, are judged on their own)
-                    spec_files = _state_files(st, ntasks)
-                    nodir = [t for t in range(1, ntasks + 1) if obs_files[t - 1][0] != 'absent' and spec_files[t - 1][0] == 'absent']
-                    if not nodir:
-                        ctx.drift('files after %s are %s, Persist.tla says %s' % (ev, obs_files, spec_files))
-                        break
-                    lastev = dict(op='nodir-written', files=obs_files)
                 what = ('after %s the real world differs from the TLC state in %s: observed %s; Persist.tla: files=%s lastRead=%s lastOne=%s'
                         % (ev['op'], problems, {k: lastev.get(k) for k in ('raised', 'exc', 'env', 'present', 'status', 'ver', 'files')},
                            _state_files(st, ntasks), dict(st['lastRead']), dict(st['lastOne'])))
-                ctx.violation(vkey(lastev, problems), what, dict(ntasks=ntasks, seed=seed, events=done), module='conf_persist')
+                ctx.violation(vkey(lastev, problems), what, dict(ntasks=WIDTH, seed=seed, events=done), module='conf_persist')
                 break
         runs += 1
         kinds = tuple(sorted(set(f[0] for ev in world.log if ev['op'] in ('read', 'readone') for f in ev['files'])))
         if has_read and any(k in kinds for k in ('empty', 'partial', 'garbage', 'dir', 'unreadable')):
             ctx.distinct(('beh', tuple(json.dumps(e, sort_keys=True) for e in concrete)))
         shutil.rmtree(world.root, ignore_errors=True)
+        keep.append(world)
     return runs, len(evs)
 
 
@@ -777,7 +1151,7 @@ def scan_every_byte(seed, ntasks, n_payloads, statuses):
         world.execute([dict(op='exit')])
         for k in range(0, length):
             world.execute([dict(op='run', t=t, status=status, dir=True, pid=p),
-                           dict(op='write', order=[t], crash=dict(at=0, k=k)),
+                           dict(op='write', order=[t], crash=dict(tasks=[t], k=k)),
                            dict(op='read'), dict(op='exit'), dict(op='readone', t=t)])
         world.scan = (t, status, length)
         worlds.append(world)
@@ -799,7 +1173,7 @@ def random_history(seed, idx, ntasks, length):
         elif fresh and r < 0.40:
             do(dict(op='readone', t=rng.randint(1, ntasks)))
         elif fresh and r < 0.55:
-            do(dict(op='fault', t=rng.randint(1, ntasks), kind=rng.choice(FAULT_KINDS), which=rng.randint(0, 99)))
+            do(dict(op='fault', t=rng.randint(1, ntasks), kind=rng.choice(FAULT_KINDS_ALL), which=rng.randint(0, 99)))
         elif r < 0.80 or fresh:
             do(dict(op='run', t=rng.randint(1, ntasks), status=rng.choice(ALL_STATUSES + ['DONE', 'DONE']),
                     dir=rng.random() < 0.8))
@@ -817,7 +1191,7 @@ def random_history(seed, idx, ntasks, length):
                 else:
                     ver = world.mem[order[j]][0]
                     k = rng.randint(1, max(1, len(world._refbytes(ver)) - 1)) if world.entries[ver][2] else None
-                crash = dict(at=j, k=k)
+                crash = dict(tasks=order[j:] if k is None else [order[j]], k=k)
             do(dict(op='write', order=order, crash=crash))
             if crash is None and rng.random() < 0.7:
                 do(dict(op='exit'))
@@ -827,27 +1201,119 @@ def random_history(seed, idx, ntasks, length):
     return world
 
 
+# -- sessions of `valjean run` ---------------------------------------------------------------
+
+PAIRS3 = [(2, 1), (3, 1), (3, 2)]
+
+
+def _session_event(n, edges, dirs, behs, rng=None, workers=1):
+    """edges: [(i, j, 'hard'|'soft')], task i depends on task j < i."""
+    tasks = [dict(t=t, hard=[j for i, j, k in edges if i == t and k == 'hard'], soft=[j for i, j, k in edges if i == t and k == 'soft'],
+                  dir=bool(dirs[t - 1]), beh=behs[t - 1]) for t in range(1, n + 1)]
+    listed = list(range(1, n + 1))
+    if rng is not None:
+        rng.shuffle(listed)
+    return dict(op='session', tasks=tasks, listed=listed, workers=workers)
+
+
+def _run_sessions(world, events):
+    for ev in events:
+        world.execute([ev])
+        if world.stop:
+            break
+        last = world.log[-1] if world.log else dict(op='none')
+        if last['op'] == 'read' and (last['raised'] or any(e['ver'] <= 0 for e in last['env'])):
+            break
+    world.kind = 'session'
+    return world
+
+
+def systematic_sessions(seed, quick):
+    """Every hard/soft graph on 3 tasks: a session in which all tasks succeed; the file of one task is damaged and
+    one task is made to fail; a second session; what read_env returns then (and Env.from_file on every file)."""
+    import itertools
+    worlds = []
+    idx = combo = 0
+    graphs = list(itertools.product(['none', 'hard', 'soft'], repeat=3))
+    damages = ['absent', 'partial', 'empty', 'garbage']
+    for kinds in graphs:
+        edges = [(i, j, kd) for (i, j), kd in zip(PAIRS3, kinds) if kd != 'none']
+        for damaged in (1, 2, 3):
+            for failing in (1, 2, 3):
+                combo += 1
+                for fk, fail in enumerate(['ko', 'raise']):
+                    idx += 1
+                    if quick and fk != combo % 2:
+                        continue
+                    world = World(WIDTH, seed * 7001 + idx)
+                    behs = ['ok'] * 3
+                    evs = [_session_event(3, edges, [True] * 3, behs, workers=1 + idx % 2)]
+                    evs.append(dict(op='fault', t=damaged, kind=damages[idx % len(damages)], which=idx))
+                    behs2 = list(behs)
+                    behs2[failing - 1] = fail
+                    evs.append(_session_event(3, edges, [True] * 3, behs2, workers=1 + (idx // 2) % 2))
+                    evs += [dict(op='read'), dict(op='exit')] + [dict(op='readone', t=t) for t in (1, 2, 3)]
+                    worlds.append(_run_sessions(world, evs))
+    return worlds
+
+
+def random_sessions(seed, idx):
+    """2-5 tasks, random hard/soft dependencies, 2-4 sessions with tasks that succeed / fail / raise / have no output
+    directory, files lost, emptied, cut short, replaced by garbage / a directory / an unopenable object in between."""
+    rng = random.Random('sess/%d/%d' % (seed, idx))
+    n = rng.randint(2, WIDTH)
+    edges = []
+    for i in range(2, n + 1):
+        for j in range(1, i):
+            r = rng.random()
+            if r < 0.35:
+                edges.append((i, j, 'hard'))
+            elif r < 0.5:
+                edges.append((i, j, 'soft'))
+    world = World(WIDTH, seed * 9001 + idx)
+    world.kind = 'session'
+    evs = []
+    for s in range(rng.randint(2, 4)):
+        p_ok = 0.9 if s == 0 else 0.65
+        behs = [('ok' if rng.random() < p_ok else rng.choice(['ko', 'raise'])) for _ in range(n)]
+        dirs = [rng.random() < 0.9 for _ in range(n)]
+        evs.append(_session_event(n, edges, dirs, behs, rng=rng, workers=rng.randint(1, 3)))
+        for _ in range(rng.choice([0, 1, 1, 2])):
+            evs.append(dict(op='fault', t=rng.randint(1, n), kind=rng.choice(FAULT_KINDS_ALL + ['absent', 'partial', 'partial']),
+                            which=rng.randint(0, 9999)))
+        if rng.random() < 0.3:
+            evs.append(dict(op='readone', t=rng.randint(1, n)))
+    evs += [dict(op='read'), dict(op='exit')] + [dict(op='readone', t=t) for t in range(1, n + 1)]
+    return _run_sessions(world, evs)
+
+
 # ---------------------------------------------------------------------------------------------
 
 def run_c14(ctx):
     import time
     t0 = time.time()
     dbg = (lambda m: print('  [c14 %.1fs] %s' % (time.time() - t0, m))) if os.environ.get('VERIF_DEBUG') else (lambda m: None)
-    ctx.rule('spec->code: behaviours simulated by TLC from Persist.tla (run / write_env entry by entry / crash between any two '
-             'steps / exit / file faults / read_env / Env.from_file) are executed on the real write_env, read_env, Env.to_file, '
-             'Env.from_file in a scratch directory (crash = the process dies after k bytes reached the file, k swept over byte '
-             'lengths) and files, lastRead and lastOne are compared with the TLC state after every segment. code->spec: for '
-             'random payloads EVERY byte length of the written file is produced by a crash and read back, and seeded random long '
-             'histories (5 tasks, five statuses, re-writes, faults) are executed; TLC validates all logs against PersistTrace.tla. '
-             'distinct_nontrivial counts distinct (history, byte length) executions in which a read met at least one empty, '
-             'truncated, garbage, directory or unopenable file.')
-    ctx.assume('a crash leaves a prefix of the bytes pickle.dump produced (open(..., "wb") truncates, bytes are written in order)')
+    ctx.rule('spec->code: behaviours simulated by TLC from Persist.tla (run / write_env entry by entry, in any order, in place or '
+             'through a temporary file / crash between any two steps / exit / file faults / read_env / Env.from_file) are executed on '
+             'the real write_env, read_env, Env.to_file, Env.from_file in a scratch directory (crash = the process dies after k bytes '
+             'reached the file, k swept over byte lengths; the file is recognised by its path whatever flavour of open() is used) and '
+             'files, lastRead and lastOne are compared with the TLC state as long as the implementation makes the choices TLC made. '
+             'code->spec: for random payloads EVERY byte length of the written file is produced by a crash and read back; seeded '
+             'random long histories (5 tasks, five statuses, re-writes, faults); histories of SESSIONS of RunCommand().execute on a '
+             'job file (every 3-task hard/soft graph x damaged file x failing task, and random 2-5 task graphs, 2-4 sessions, tasks '
+             'that succeed / fail / raise / are skipped, files lost / cut short / corrupted in between) in which read_env at the '
+             'start of the next session is judged against what the previous session ended with; TLC validates all logs against '
+             'PersistTrace.tla. distinct_nontrivial counts distinct (history, byte length) executions in which a read met at least '
+             'one empty, truncated, garbage, directory or unopenable file.')
+    ctx.assume('a crash leaves, in the file being written, a prefix of the bytes of the new content, or the previous content, or the '
+               'complete new content; all other files are untouched')
     ctx.assume('output_dir of task t is <root>/<t> (as RunTask sets it) and exists; distinct tasks have distinct directories')
     ctx.assume('garbage = curated families of non-pickles (text, zero/0xff blocks, foreign magic numbers, invalid first opcode, '
                'unknown globals); byte strings pickle.loads accepts are dropped (DESIGN 8.1); mutated real pickles are not used '
                'because they can crash the interpreter; "unreadable" is a symbolic link loop (checks run as root)')
     seed = ctx.seed
     wd = tlc.workdir('c14')
+    drifts = Drifts(ctx)
 
     # 1. exhaustive check of the specification + witnesses
     cfgs = [('2tasks', _consts(2, ['DONE', 'FAILED'], 3, 1, 3))]
@@ -874,7 +1340,11 @@ def run_c14(ctx):
         witness_behs = list(pool.map(_witness, WITNESSES))
     dbg('model checked')
     # 2. spec -> code
-    sim_cfg = tlc.write_cfg(os.path.join(wd, 'sim.cfg'), constants=_consts(3, ['DONE', 'FAILED', 'SKIPPED'], 6, 2, 5),
+    modes, injected = probe_modes(seed)
+    if not injected:
+        drifts.add('crash-injection', 'a crash planned inside the write of a file never happened: the file is not opened through '
+                   'builtins.open / io.open; crash points are not exercised')
+    sim_cfg = tlc.write_cfg(os.path.join(wd, 'sim.cfg'), constants=_consts(3, ['DONE', 'FAILED', 'SKIPPED'], 6, 2, 5, modes=modes),
                             invariants=INVS, deadlock=False)
     nsim = ctx.pick(150, 1500)
     prefix = os.path.join(wd, 'sim', 'b')
@@ -889,13 +1359,18 @@ def run_c14(ctx):
         raise tlc.MachineryError('only %d simulated behaviours read back' % len(behs))
     sweeps = ctx.pick(6, 24)
     runs = steps = 0
+    stats = dict(compared=0, diverged=0)
+    rworlds = []
     for bi, beh in enumerate(witness_behs + behs):
         nt = 2 if bi < len(witness_behs) else 3
-        r, s = replay_behaviour(ctx, beh, nt, seed + bi, sweeps)
+        r, s = replay_behaviour(ctx, beh, nt, seed + bi, sweeps, stats, rworlds)
         runs += r
         steps += r * s
     ctx.count(evaluations=steps, traces=runs)
-    ctx.sample(dict(source='TLC simulation', events=[e for e, _ in behaviour_to_events(behs[0])][:12]))
+    ctx.sample(dict(source='TLC simulation', write_modes_simulated=modes, events=[e for e, _ in behaviour_to_events(behs[0])][:12]))
+    if stats['compared'] < 10 * max(1, stats['diverged']) and stats['diverged'] > 20:
+        drifts.add('choices', 'the implementation followed the choices of TLC (order of the files, way of writing) in only %d of %d '
+                   'compared segments' % (stats['compared'], stats['compared'] + stats['diverged']))
 
     dbg('behaviours replayed')
     # 3. code -> spec
@@ -906,7 +1381,7 @@ def run_c14(ctx):
     logs = [(i + 1, w.log) for i, w in enumerate(worlds)]
     verdict, nev = validate_logs(logs, 2, wd, ctx, 'PersistTrace/every-byte')
     dbg('scan validated')
-    _digest(ctx, verdict, worlds, 2)
+    _digest(ctx, drifts, verdict, worlds, 2)
     ctx.count(evaluations=sum(w.n_reads for w in worlds), traces=len(worlds))
     for w in worlds:
         for k in range(w.scan[2]):
@@ -916,47 +1391,64 @@ def run_c14(ctx):
                     first_log=worlds[0].log[:8]))
 
     nhist = ctx.pick(300, 4000)
-    hworlds = [random_history(seed, i, 5, ctx.pick(40, 60)) for i in range(nhist)]
+    hworlds = [random_history(seed, i, WIDTH, ctx.pick(40, 60)) for i in range(nhist)]
     dbg('histories executed')
-    logs = [(i + 1, w.log) for i, w in enumerate(hworlds)]
-    verdict, nev2 = validate_logs(logs, 5, wd, ctx, 'PersistTrace/random-histories')
-    _digest(ctx, verdict, hworlds, 5)
-    ctx.count(evaluations=sum(w.n_reads for w in hworlds), traces=len(hworlds))
-    for i, w in enumerate(hworlds):
+    sworlds = systematic_sessions(seed, ctx.quick) + [random_sessions(seed, i) for i in range(ctx.pick(120, 1500))]
+    nsessions = sum(w.nsession for w in sworlds)
+    dbg('%d sessions executed' % nsessions)
+    allw = hworlds + sworlds + rworlds
+    logs = [(i + 1, w.log) for i, w in enumerate(allw)]
+    verdict, nev2 = validate_logs(logs, WIDTH, wd, ctx, 'PersistTrace/histories+sessions+replayed')
+    _digest(ctx, drifts, verdict, allw, WIDTH)
+    ctx.count(evaluations=sum(w.n_reads for w in hworlds + sworlds), traces=len(hworlds) + len(sworlds))
+    ctx.count(evaluations=nsessions)
+    for i, w in enumerate(hworlds + sworlds):
         for ev in w.log:
             if ev['op'] in ('read', 'readone') and any(f[0] in ('empty', 'partial', 'garbage', 'dir', 'unreadable') for f in ev['files']):
                 ctx.distinct(('hist', i, len(w.log)))
                 break
         shutil.rmtree(w.root, ignore_errors=True)
     ctx.sample(dict(source='random history', events=hworlds[0].abstract[:10]))
+    ctx.sample(dict(source='sessions of RunCommand.execute', events=sworlds[-1].abstract[:6], log=sworlds[-1].log[:14]))
+    unreached = sum(w.unreached for w in worlds + allw)
+    if unreached and injected:
+        drifts.add('crash-injection', '%d crashes planned inside the write of a file never happened (treated as completed writes)' % unreached)
+    drifts.flush()
     dbg('histories validated')
     ctx.cov['exhaustive'] = True
     ctx.cov['explanation'] = ('Persist.tla exhaustively model-checked for the configurations in tlc_runs; %d simulated + %d witness '
-                              'behaviours replayed with %d byte-length choices each; every one of %d byte lengths of %d entries read back; '
-                              '%d random histories; %d logged events judged by TLC' % (
-                                  len(behs), len(witness_behs), sweeps, nbytes, n_payloads, nhist, nev + nev2))
+                              'behaviours replayed with %d byte-length choices each (%d segments compared with the TLC state, %d executions '
+                              'left TLC\'s choices); every one of %d byte lengths of %d entries read back; %d random histories; %d histories '
+                              'with %d sessions of RunCommand.execute; %d logged events judged by TLC' % (
+                                  len(behs), len(witness_behs), sweeps, stats['compared'], stats['diverged'], nbytes, n_payloads, nhist,
+                                  len(sworlds), nsessions, nev + nev2))
     # extra module: `valjean run` from the job file to the files on disk (Pipeline.tla, observations only, see conf_pipeline.py)
     import conf_pipeline
     conf_pipeline.run(ctx, tlc.workdir('c14pipeline'))
 
 
-def _digest(ctx, verdict, worlds, ntasks):
+def _digest(ctx, drifts, verdict, worlds, ntasks):
     derailed = {}
     for (tid, step), clauses in sorted(verdict.items()):
         if 'NotEnabled' in clauses and tid not in derailed:
             derailed[tid] = step
+    for world in worlds:
+        for cls, msg in world.notes:
+            drifts.add(cls, msg)
+        world.notes = []
     for (tid, step), clauses in sorted(verdict.items()):
         world = worlds[tid - 1]
         ev = world.log[step - 1]
         if tid in derailed and step >= derailed[tid]:
             if step == derailed[tid]:
                 # from here on the log is no behaviour of the model of the files: nothing can be said
-                ctx.drift('trace %d leaves Persist.tla at step %d (%s); the rest of it is not judged' % (tid, step, ev))
+                drifts.add('derailed', 'trace %d leaves Persist.tla at step %d (%s); the rest of it is not judged' % (tid, step, ev))
             continue
         events = world.abstract[:world.origin[step - 1] + 1]
-        if clauses == ['Files']:
-            ctx.drift('trace %d step %d (%s): files are %s, not what Persist.tla implies' % (tid, step, ev['op'], ev['files']))
-            continue
-        _report(ctx, ev, [c for c in clauses if c != 'Files'], events, ntasks, world.seed)
+        rest = [c for c in clauses if c != 'Files']
+        if 'Files' in clauses:
+            drifts.add('files', 'trace %d step %d (%s): files are %s, not what Persist.tla implies' % (tid, step, ev['op'], ev['files']))
+        if rest:
+            _report(ctx, ev, rest, events, ntasks, world.seed, world.kind)
     if len(derailed) > max(3, len(worlds) // 10):
         raise tlc.MachineryError('%d of %d logs are no behaviours of Persist.tla' % (len(derailed), len(worlds)))
